@@ -529,14 +529,24 @@ def _two_scenario(fs, pa, pb, da, db, j, inside):
     j-th file operation B opens its staging file and writes (and, if `inside`, also finishes); otherwise B finishes
     after A has returned.  Then both are read back."""
     M.use(fs)
-    A, B = BinaryFileStore(pa), BinaryFileStore(pb)
-    state = {"own": 0, "busy": False, "cm": None}
+    if MOUNT:
+        # through MountedStore: each store stages its value in a local scratch file of its own before / after the remote copy
+        A, B = Mount(lambda p: BinaryFileStore(p), pa), Mount(lambda p: BinaryFileStore(p), pb)
+    else:
+        A, B = BinaryFileStore(pa), BinaryFileStore(pb)
+    state = {"own": 0, "busy": False, "cm": None, "wb": None}
 
     def hook(fs_, i, kind, path):
         if state["busy"]:
             return
         n = state["own"]
         state["own"] = n + 1
+        if n == j and MOUNT:
+            # B's whole write (local staging + copy to its remote) happens between two file operations of A's write
+            state["busy"] = True
+            state["wb"] = _outcome(lambda: B.write(db))
+            state["busy"] = False
+            return
         if n == j:
             state["busy"] = True
             cm = staged_write(pb, "wb")
@@ -552,7 +562,9 @@ def _two_scenario(fs, pa, pb, da, db, j, inside):
     wa = _outcome(lambda: A.write(da))
     fs.hook = None
     started = state["own"] > j
-    if state["cm"] is not None:
+    if state["wb"] is not None:
+        wb = state["wb"]
+    elif state["cm"] is not None:
         wb = _outcome(lambda: state["cm"].__exit__(None, None, None))
     elif started:
         wb = ("ok", None)
